@@ -596,13 +596,37 @@ func makeIntrinsics() map[string]intrinsic {
 	for _, n := range []string{"(*sync.Mutex).Lock", "(*sync.Mutex).Unlock", "(*sync.RWMutex).Lock", "(*sync.RWMutex).Unlock", "(*sync.RWMutex).RLock", "(*sync.RWMutex).RUnlock"} {
 		m[n] = func(st *State, fr *frame, a []value, cc *ssa.CallCommon) value { return nil }
 	}
-	m["strings.ToUpper"] = func(st *State, fr *frame, a []value, cc *ssa.CallCommon) value {
-		s, ok := a[0].(*Str).Concrete()
-		if !ok {
-			panic(pathEnd{kind: "unsupported", msg: "strings.ToUpper on a symbolic string"})
+	// strings.ToUpper / ToLower: exact for ASCII (byte-wise); a string that may hold a byte >= 0x80 ends the path (Unicode
+	// case mapping is not summarised)
+	caseMap := func(upper bool) intrinsic {
+		return func(st *State, fr *frame, a []value, cc *ssa.CallCommon) value {
+			in := a[0].(*Str)
+			if c, ok := in.Concrete(); ok && in.Blob == nil {
+				if upper {
+					return StrConst(strings.ToUpper(c))
+				}
+				return StrConst(strings.ToLower(c))
+			}
+			if in.Blob != nil {
+				panic(pathEnd{kind: "unsupported", msg: "case mapping of an abstract string"})
+			}
+			out := &Str{Len: in.Len}
+			for _, b := range in.B {
+				if st.decide(BVCmp("bvuge", b, BVConstI(0x80, 8))) {
+					panic(pathEnd{kind: "unsupported", msg: "case mapping of a string with non-ASCII bytes"})
+				}
+				lo, hi, d := int64('a'), int64('z'), "bvsub"
+				if !upper {
+					lo, hi, d = 'A', 'Z', "bvadd"
+				}
+				is := And(BVCmp("bvuge", b, BVConstI(lo, 8)), BVCmp("bvule", b, BVConstI(hi, 8)))
+				out.B = append(out.B, Ite(is, BVBin(d, b, BVConstI(32, 8)), b))
+			}
+			return out
 		}
-		return StrConst(strings.ToUpper(s))
 	}
+	m["strings.ToUpper"] = caseMap(true)
+	m["strings.ToLower"] = caseMap(false)
 	m[V+"SlashFree"] = func(st *State, fr *frame, a []value, cc *ssa.CallCommon) value {
 		label, _ := a[0].(*Str).Concrete()
 		n, _ := asConcreteInt(a[1])
@@ -994,16 +1018,50 @@ func makeIntrinsics() map[string]intrinsic {
 		st.assume(c)
 		return nil
 	}
+	// text of "<message>: <inner text>" (cosmossdk.io/errors wrappedError.Error)
+	wrapText := func(st *State, msgSkel string, msgLeaves []*Term, inner value) (string, []*Term) {
+		is, il := st.errTextOf(inner)
+		return "W(" + msgSkel + ": " + is + ")", append(append([]*Term{}, msgLeaves...), il...)
+	}
 	wrapNil := func(st *State, fr *frame, a []value, cc *ssa.CallCommon) value {
 		if e, ok := a[0].(iface); ok && e.t == nil {
 			return iface{}
 		}
-		return newErr(st, "wrap", errChain(a[0])...)
+		var ms string
+		var ml []*Term
+		if len(a) > 2 { // Wrapf(err, format, args...)
+			ms, ml = st.fmtText(a[1].(*Str), a[2].([]value))
+		} else {
+			ms, ml = strText(st, a[1])
+		}
+		sk, lv := wrapText(st, ms, ml, a[0])
+		return newErrText(st, "wrap", sk, lv, errChain(a[0])...)
 	}
 	m["cosmossdk.io/errors.Wrap"] = wrapNil
 	m["cosmossdk.io/errors.Wrapf"] = wrapNil
-	m["(*cosmossdk.io/errors.Error).Wrap"] = func(st *State, fr *frame, a []value, cc *ssa.CallCommon) value { return newErr(st, "Error.Wrap", a[0]) }
-	m["(*cosmossdk.io/errors.Error).Wrapf"] = func(st *State, fr *frame, a []value, cc *ssa.CallCommon) value { return newErr(st, "Error.Wrapf", a[0]) }
+	sentinelText := func(st *State, p value) (string, []*Term) {
+		k := st.newKeyB()
+		if q, ok := p.(*value); ok && q != nil {
+			if x, ok := (*q).(structure); ok && len(x) >= 3 {
+				k.w("E(")
+				k.content(x[2])
+				k.w(")")
+				return k.sb.String(), k.leaves
+			}
+		}
+		k.w("E«sentinel»")
+		return k.sb.String(), k.leaves
+	}
+	m["(*cosmossdk.io/errors.Error).Wrap"] = func(st *State, fr *frame, a []value, cc *ssa.CallCommon) value {
+		ms, ml := strText(st, a[1])
+		is, il := sentinelText(st, a[0])
+		return newErrText(st, "Error.Wrap", "W("+ms+": "+is+")", append(ml, il...), a[0])
+	}
+	m["(*cosmossdk.io/errors.Error).Wrapf"] = func(st *State, fr *frame, a []value, cc *ssa.CallCommon) value {
+		ms, ml := st.fmtText(a[1].(*Str), a[2].([]value))
+		is, il := sentinelText(st, a[0])
+		return newErrText(st, "Error.Wrapf", "W("+ms+": "+is+")", append(ml, il...), a[0])
+	}
 	m["errors.Is"] = func(st *State, fr *frame, a []value, cc *ssa.CallCommon) value {
 		tgt := a[1].(iface)
 		if e, ok := a[0].(iface); ok && e.t == nil {
@@ -1020,7 +1078,7 @@ func makeIntrinsics() map[string]intrinsic {
 	}
 	m["cosmossdk.io/errors.Register"] = func(st *State, fr *frame, a []value, cc *ssa.CallCommon) value {
 		p := new(value)
-		*p = structure{}
+		*p = structure{a[0], a[1], a[2], BVConstI(2, 32)} // codespace, code, desc, grpcCode (layout of cosmossdk.io/errors.Error)
 		return p
 	}
 	// matchAt: does sep (concrete) occur in s at position i
@@ -1556,6 +1614,23 @@ func makeIntrinsics() map[string]intrinsic {
 		}
 		return IntCmp(">", amt.v, IntConst(big.NewInt(0)))
 	}
+	m["("+SDK+"Coin).IsNil"] = func(st *State, fr *frame, a []value, cc *ssa.CallCommon) value {
+		return BoolConst(a[0].(structure)[1].(*bigV).isNil)
+	}
+	m["("+SDK+"Coin).IsZero"] = func(st *State, fr *frame, a []value, cc *ssa.CallCommon) value {
+		amt := a[0].(structure)[1].(*bigV)
+		if amt.isNil {
+			panic(pathEnd{kind: "panic", msg: "Coin.IsZero on nil amount"})
+		}
+		return Eq(amt.v, IntConst(big.NewInt(0)))
+	}
+	m["("+SDK+"Coin).IsNegative"] = func(st *State, fr *frame, a []value, cc *ssa.CallCommon) value {
+		amt := a[0].(structure)[1].(*bigV)
+		if amt.isNil {
+			panic(pathEnd{kind: "panic", msg: "Coin.IsNegative on nil amount"})
+		}
+		return IntCmp("<", amt.v, IntConst(big.NewInt(0)))
+	}
 	m["github.com/cosmos/cosmos-sdk/x/auth/types.NewModuleAddress"] = func(st *State, fr *frame, a []value, cc *ssa.CallCommon) value {
 		name, ok := a[0].(*Str).Concrete()
 		if !ok {
@@ -1803,8 +1878,8 @@ func makeIntrinsics() map[string]intrinsic {
 	}
 	m[V+"DecodeJSON"] = func(st *State, fr *frame, a []value, cc *ssa.CallCommon) value {
 		mb, ok := asStr(a[0]).Blob.(memoBlob)
-		if !ok {
-			return newErr(st, "json")
+		if !ok || mb.extra < 0 {
+			return newErr(st, "json") // (a root key in another letter case is an unknown field for the proto JSON codec)
 		}
 		dst := a[1].(iface).v.(*value)
 		*dst = copyVal(*(mb.wrapper.(*value)))
@@ -1844,13 +1919,22 @@ func makeIntrinsics() map[string]intrinsic {
 			if mb.tail >= 1 && mb.tail <= 3 {
 				return newErr(st, "json") // encoding/json.Unmarshal validates the whole input: bytes after the top-level value
 			}
-			mp.keys = append(mp.keys, StrConst("orbiter"))
+			// the root key: "orbiter", or (extra < 0) a spelling that differs from it by letter case — which a decoder
+			// matching field names case-insensitively (encoding/json into a struct) would take for it: -1 "ORBITER",
+			// -2 "Orbiter", -3 "orbiter" AND "Orbiter"
+			rootKeys := map[int][]string{-1: {"ORBITER"}, -2: {"Orbiter"}, -3: {"orbiter", "Orbiter"}}[mb.extra]
+			if mb.extra >= 0 {
+				rootKeys = []string{"orbiter"}
+			}
 			// {"orbiter": null} when the wrapper has no payload
 			w := (*(mb.wrapper.(*value))).(structure)
-			if p, isPtr := w[0].(*value); isPtr && p == nil {
-				mp.vals = append(mp.vals, iface{})
-			} else {
-				mp.vals = append(mp.vals, jsonObj)
+			for _, rk := range rootKeys {
+				mp.keys = append(mp.keys, StrConst(rk))
+				if p, isPtr := w[0].(*value); isPtr && p == nil {
+					mp.vals = append(mp.vals, iface{})
+				} else {
+					mp.vals = append(mp.vals, jsonObj)
+				}
 			}
 			for k := 0; k < mb.extra; k++ {
 				mp.keys = append(mp.keys, StrConst(fmt.Sprintf("extra%d", k)))
@@ -2038,12 +2122,25 @@ func makeIntrinsics() map[string]intrinsic {
 	m[C+"NewItem"] = func(st *State, fr *frame, a []value, cc *ssa.CallCommon) value {
 		return zero(st.curFn.Signature.Results().At(0).Type())
 	}
-	m["errors.New"] = func(st *State, fr *frame, a []value, cc *ssa.CallCommon) value { return newErr(st, "errors.New") }
-	m["fmt.Errorf"] = func(st *State, fr *frame, a []value, cc *ssa.CallCommon) value { return newErr(st, "fmt.Errorf") }
+	m["errors.New"] = func(st *State, fr *frame, a []value, cc *ssa.CallCommon) value {
+		sk, lv := strText(st, a[0])
+		return newErrText(st, "errors.New", sk, lv)
+	}
+	m["fmt.Errorf"] = func(st *State, fr *frame, a []value, cc *ssa.CallCommon) value {
+		sk, lv := st.fmtText(a[0].(*Str), a[1].([]value))
+		return newErrText(st, "fmt.Errorf", sk, lv)
+	}
 	m["internal/stringslite.Clone"] = func(st *State, fr *frame, a []value, cc *ssa.CallCommon) value { return a[0] }
 	m["strconv.cloneString"] = func(st *State, fr *frame, a []value, cc *ssa.CallCommon) value { return a[0] }
 	m["github.com/cosmos/gogoproto/proto.EnumName"] = func(st *State, fr *frame, a []value, cc *ssa.CallCommon) value {
-		return &Str{Len: st.freshVar("enumname_len", BV(64))}
+		// the name is a function of (table, number): a text term, so that two renderings of the same number are the same text
+		k := st.newKeyB()
+		k.w("EnumName(")
+		k.content(a[0])
+		k.w(",")
+		k.content(a[1])
+		k.w(")")
+		return st.newText(k.sb.String(), k.leaves)
 	}
 	// fmt.Sprintf for constant formats made of %d and %s
 	m["fmt.Sprintf"] = func(st *State, fr *frame, a []value, cc *ssa.CallCommon) value {
@@ -2052,6 +2149,15 @@ func makeIntrinsics() map[string]intrinsic {
 			panic(pathEnd{kind: "unsupported", msg: "Sprintf symbolic format"})
 		}
 		args := a[1].([]value)
+		for _, x := range args {
+			if xi, ok := x.(iface); ok {
+				if xs, ok := xi.v.(*Str); ok && xs != nil && xs.Blob != nil {
+					// an abstract text among the operands: the result is a text term, not a byte vector
+					sk, lv := st.fmtText(a[0].(*Str), args)
+					return st.newText(sk, lv)
+				}
+			}
+		}
 		out := StrConst("")
 		ai := 0
 		for i := 0; i < len(f); i++ {
@@ -2066,7 +2172,8 @@ func makeIntrinsics() map[string]intrinsic {
 			sT, isS := arg.v.(*Str)
 			switch {
 			case i >= len(f):
-				return &Str{Len: st.freshVar("fmt_len", BV(64)), Blob: fmtBlob{}}
+				sk, lv := st.fmtText(a[0].(*Str), args)
+				return st.newText(sk, lv)
 			case f[i] == 'd' && isT:
 				out = st.concat(out, st.decimal(dT))
 			case f[i] == 's' && isS:
@@ -2074,12 +2181,14 @@ func makeIntrinsics() map[string]intrinsic {
 			default:
 				// any other verb (%v, %q, %x, widths, ...): the text is not modelled — an abstract string whose bytes
 				// exist only natively (code that inspects them ends the path; log lines and error texts do not)
-				return &Str{Len: st.freshVar("fmt_len", BV(64)), Blob: fmtBlob{}}
+				sk, lv := st.fmtText(a[0].(*Str), args)
+				return st.newText(sk, lv)
 			}
 		}
 		return out
 	}
 	addCollections(m)
+	addDeterminism(m)
 	withEnv(m)
 	return m
 }
